@@ -187,6 +187,12 @@ Silent ==
        \/ syncSilent /\ DoSync(0)
        \/ Quiesce
        \/ \E e \in pendErr : Abort(e)
+       \* a step time-out is a wall-clock limit: on a loaded machine any run may overrun it, whatever the handlers do.
+       \* (Only considered when the next recorded event is a return with Timeout.)
+       \/ /\ TimeoutOn /\ phase = "run"
+          /\ l <= Len(Rec) /\ Rec[l].ev = "ret" /\ Rec[l].res.r = "timeout"
+          /\ Return(RTimeout)
+          /\ UNCHANGED <<now, queue, nextEpoch, cancelled, slots, cmd, runVars, ghost>>
     /\ UNCHANGED <<l, boot, inited, syncSilent, mt, xreq, xout>>
 
 (* C08: a request from the scheduling thread.  xs is logged before the call and xe after *)
